@@ -105,13 +105,13 @@ def main(path):
             return r
     L.Path = CrashPath
     backend.path = CrashPath(repo_dir)
-    real_ntf = L.NamedTemporaryFile
-
-    def ntf(*a, **k):
-        f = real_ntf(*a, **k)
-        event('temp-created', temp=os.path.basename(f.name))
-        return f
-    L.NamedTemporaryFile = ntf
+    real_ntf = getattr(L, 'NamedTemporaryFile', None)        # only if the adapter creates its temporaries that way
+    if real_ntf is not None:
+        def ntf(*a, **k):
+            f = real_ntf(*a, **k)
+            event('temp-created', temp=os.path.basename(f.name))
+            return f
+        L.NamedTemporaryFile = ntf
 
     def copyfileobj(srcf, dst, length=0):
         # the whole payload is known to the harness: read it first, remember it, then write in pieces
